@@ -31,8 +31,8 @@ namespace Model.Rand
   unfold getMsg
   cases s.msgs[i]? <;> rfl
 
-theorem stepRun_newGcm (o : Oracle) (v : Variant) (s : St) (e : Enc) :
-    stepRun o v s (.newGcm e) = (match e.gcmKeyLen? with
+theorem stepRun_newGcm (o : Oracle) (s : St) (e : Enc) :
+    stepRun o s (.newGcm e) = (match e.gcmKeyLen? with
       | some k => (.ok [.inst s.insts.length], { s with insts := s.insts ++ [Gcm.new e k] })
       | none => (.err "not-gcm", s)) := by
   unfold stepRun
@@ -41,8 +41,8 @@ theorem stepRun_newGcm (o : Oracle) (v : Variant) (s : St) (e : Enc) :
   | none => rfl
   | some k => simp [M.run_bind]
 
-theorem stepRun_gcmCEK (o : Oracle) (v : Variant) (s : St) (i : Nat) :
-    stepRun o v s (.gcmCEK i) = (match s.insts[i]? with
+theorem stepRun_gcmCEK (o : Oracle) (s : St) (i : Nat) :
+    stepRun o s (.gcmCEK i) = (match s.insts[i]? with
       | none => (.err "no-instance", s)
       | some g => match ask o s.pos g.keyLen with
         | none => (.err "rand", s)
@@ -57,8 +57,8 @@ theorem stepRun_gcmCEK (o : Oracle) (v : Variant) (s : St) (i : Nat) :
     | none => rfl
     | some b => simp [St.push]
 
-theorem stepRun_gcmIV (o : Oracle) (v : Variant) (s : St) (i : Nat) :
-    stepRun o v s (.gcmIV i) = (match s.insts[i]? with
+theorem stepRun_gcmIV (o : Oracle) (s : St) (i : Nat) :
+    stepRun o s (.gcmIV i) = (match s.insts[i]? with
       | none => (.err "no-instance", s)
       | some g =>
         if g.counter = 0 then
@@ -89,9 +89,9 @@ theorem ask_length {o : Oracle} {p n : Nat} {b : Bytes} (h : ask o p n = some b)
   (randAt_some h).2
 
 /-- every other operation leaves the instance table alone -/
-theorem stepRun_insts (o : Oracle) (v : Variant) (s : St) (op : Op) (h : op.touchesInsts = false) :
-    (stepRun o v s op).2.insts = s.insts :=
-  (step_frame sameFrame v op h).run o s
+theorem stepRun_insts (o : Oracle) (s : St) (op : Op) (h : op.touchesInsts = false) :
+    (stepRun o s op).2.insts = s.insts :=
+  (step_frame sameFrame op h).run o s
 
 /-! ### invariant and coupling -/
 
@@ -106,10 +106,10 @@ theorem Inv.init : Inv St.init := by intro i g h; simp [St.init] at h
 theorem gcmKeyLen_cekSize {e : Enc} {k : Nat} (h : e.gcmKeyLen? = some k) : k = e.cekSize := by
   cases e <;> simp [Enc.gcmKeyLen?] at h <;> simp [Enc.cekSize, h]
 
-theorem Inv.step {o : Oracle} {v : Variant} {s : St} (op : Op) (hs : Inv s) : Inv (stepRun o v s op).2 := by
+theorem Inv.step {o : Oracle} {s : St} (op : Op) (hs : Inv s) : Inv (stepRun o s op).2 := by
   by_cases ht : op.touchesInsts = false
   · intro i g hg
-    rw [stepRun_insts o v s op ht] at hg
+    rw [stepRun_insts o s op ht] at hg
     exact hs i g hg
   · cases op <;> simp only [Op.touchesInsts, not_true_eq_false] at ht
     case newGcm e =>
@@ -182,15 +182,15 @@ def Coupled (i : Nat) (s : St) (acc : List Bytes) : Prop :=
 theorem epochIVs_cons (i : Nat) (r : Rec) (rs : List Rec) (acc : List Bytes) :
     epochIVs i (r :: rs) acc = epochIVs i rs (epochStep i r.op r.out acc) := rfl
 
-theorem Coupled.step {o : Oracle} {v : Variant} {s : St} {i : Nat} {acc : List Bytes} (op : Op)
+theorem Coupled.step {o : Oracle} {s : St} {i : Nat} {acc : List Bytes} (op : Op)
     (hs : Inv s) (hc : Coupled i s acc) :
-    Coupled i (stepRun o v s op).2 (epochStep i op (stepRun o v s op).1 acc) := by
+    Coupled i (stepRun o s op).2 (epochStep i op (stepRun o s op).1 acc) := by
   by_cases ht : op.touchesInsts = false
-  · have h1 : epochStep i op (stepRun o v s op).1 acc = acc := by
+  · have h1 : epochStep i op (stepRun o s op).1 acc = acc := by
       cases op <;> simp only [Op.touchesInsts, Bool.true_eq_false] at ht <;> rfl
     rw [h1]
     unfold Coupled
-    rw [stepRun_insts o v s op ht]
+    rw [stepRun_insts o s op ht]
     exact hc
   · cases op <;> simp only [Op.touchesInsts, not_true_eq_false] at ht
     case newGcm e =>
@@ -272,12 +272,12 @@ theorem Coupled.step {o : Oracle} {v : Variant} {s : St} {i : Nat} {acc : List B
             · simp only [hji, if_false]
               exact hc
 
-theorem epochIVs_coupled (o : Oracle) (v : Variant) (i : Nat) :
+theorem epochIVs_coupled (o : Oracle) (i : Nat) :
     ∀ (ops : List Op) (s : St) (acc : List Bytes), Inv s → Coupled i s acc →
-      Inv (final o v s ops) ∧ Coupled i (final o v s ops) (epochIVs i (trace o v s ops) acc)
+      Inv (final o s ops) ∧ Coupled i (final o s ops) (epochIVs i (trace o s ops) acc)
   | [], s, acc, hs, hc => ⟨hs, hc⟩
   | op :: ops, s, acc, hs, hc => by
     simp only [final, trace, epochIVs_cons]
-    exact epochIVs_coupled o v i ops _ _ (Inv.step op hs) (Coupled.step op hs hc)
+    exact epochIVs_coupled o i ops _ _ (Inv.step op hs) (Coupled.step op hs hc)
 
 end Model.Rand
